@@ -257,6 +257,7 @@ Definition apply_fn (id : nat) (x : list cell) : aresult :=
   | 11%nat => RAny (x ++ [CS s_k])                    (* a longer slice *)
   | 12%nat => RInts (map Z.of_nat (seq 0 (Nat.div2 (length x))))     (* a shorter []int *)
   | 13%nat => RStrs (map (fun _ => s_k) x ++ [s_k])                  (* a longer []string *)
+  | 14%nat => match x with CNil :: _ => RNilRes | _ => RAny (rev x) end  (* nil for some rows, a slice for the others *)
   | _ => RAny (map (fun c => match c with CS _ => CNil | _ => c end) x)
   end.
 (* the functions of the menu that return as many cells as they receive (all but 10-13) *)
